@@ -29,7 +29,10 @@ if ok:
             res[mm.group(1)] = {"exit": int(mm.group(2)), "first_violation": mm.group(3)[:500]}
 os.makedirs(out, exist_ok=True)
 for f in os.listdir(src):
-    shutil.copy(f"{src}/{f}", f"{out}/{f}")
+    if os.path.isdir(f"{src}/{f}"):
+        shutil.copytree(f"{src}/{f}", f"{out}/{f}", dirs_exist_ok=True)
+    else:
+        shutil.copy(f"{src}/{f}", f"{out}/{f}")
 meta = {
     "id": f"{cid}-{rnd}{mut}",
     "property": cid,
